@@ -1,1 +1,62 @@
 import Model.CollocFiles
+import Mathlib.Tactic
+
+/-! Helper lemmas about `chunkSizes` / `splitSizes` (numpy `array_split`). -/
+
+namespace CFiles
+
+theorem sum_chunkSizes (n k : Nat) (hk : 0 < k) : (chunkSizes n k).sum = n := by
+  unfold chunkSizes
+  rw [List.sum_append, List.sum_replicate, List.sum_replicate]
+  simp only [smul_eq_mul]
+  have h1 : n % k < k := Nat.mod_lt n hk
+  have h2 := Nat.div_add_mod n k
+  have h3 : (k - n % k) * (n / k) = k * (n / k) - n % k * (n / k) := Nat.sub_mul _ _ _
+  have h4 : n % k * (n / k) ≤ k * (n / k) := Nat.mul_le_mul_right _ (Nat.le_of_lt h1)
+  rw [h3, Nat.mul_add, Nat.mul_one]
+  omega
+
+theorem length_chunkSizes (n k : Nat) : (chunkSizes n k).length = k := by
+  unfold chunkSizes
+  simp only [List.length_append, List.length_replicate]
+  by_cases hk : k = 0
+  · subst hk; simp
+  · have := Nat.mod_lt n (Nat.pos_of_ne_zero hk); omega
+
+theorem mem_chunkSizes {n k s : Nat} (h : s ∈ chunkSizes n k) : s = n / k ∨ s = n / k + 1 := by
+  unfold chunkSizes at h
+  rw [List.mem_append] at h
+  rcases h with h | h
+  · exact Or.inr (List.eq_of_mem_replicate h)
+  · exact Or.inl (List.eq_of_mem_replicate h)
+
+theorem length_splitSizes {α : Type} (ss : List Nat) (l : List α) :
+    (splitSizes ss l).length = ss.length := by
+  induction ss generalizing l with
+  | nil => rfl
+  | cons s ss ih => simp [splitSizes, ih]
+
+theorem flatten_splitSizes {α : Type} (ss : List Nat) (l : List α) (h : l.length ≤ ss.sum) :
+    (splitSizes ss l).flatten = l := by
+  induction ss generalizing l with
+  | nil =>
+    simp only [List.sum_nil, Nat.le_zero, List.length_eq_zero_iff] at h
+    subst h; rfl
+  | cons s ss ih =>
+    simp only [splitSizes, List.flatten_cons]
+    rw [ih (l.drop s) (by simp only [List.length_drop, List.sum_cons] at *; omega)]
+    exact List.take_append_drop s l
+
+/-- lengths of the pieces are the requested sizes when the sizes sum to the length -/
+theorem map_length_splitSizes {α : Type} (ss : List Nat) (l : List α) (h : ss.sum = l.length) :
+    (splitSizes ss l).map List.length = ss := by
+  induction ss generalizing l with
+  | nil => rfl
+  | cons s ss ih =>
+    simp only [splitSizes, List.map_cons, List.length_take]
+    simp only [List.sum_cons] at h
+    rw [ih (l.drop s) (by simp only [List.length_drop]; omega)]
+    congr 1
+    omega
+
+end CFiles
